@@ -134,7 +134,7 @@ def r3_build_model(R) -> None:
     for o in OPTIONS:
         v = kwarg(call, o)
         if v is None:
-            R.violation(q, f'forward-dropped:{o}', f'option `{o}` is not forwarded to build_model_definition()', where=f.where(d))
+            R.violation(q, f'forward-dropped:{o}', f'option `{o}` is not forwarded to build_model_definition()', where=f.where(d), mismatch=True)
         else:
             R.check(isinstance(v, ast.Name) and v.id == o, q, f'forward:{o}={text(v)}', f'{o} forwarded unchanged', f'option `{o}` forwarded as `{o}={text(v)}`',
                     where=f.where(d))
@@ -225,7 +225,7 @@ def r4_converter(R) -> None:
         joined = eqv.orelse
         R.ok(q, 'an empty equation block becomes `pass`')
     else:
-        R.violation(q, 'empty-pass', f'no `pass` body for an empty equation block (the equations field is `{text(eqv)[:70]}`)', where=where)
+        R.violation(q, 'empty-pass', f'no `pass` body for an empty equation block (the equations field is `{text(eqv)[:70]}`)', where=where, mismatch=True)
     # the block is the converter outputs, indented by 8 and joined by blank lines
     if not (method_call(joined, 'join') and len(joined.args) == 1):
         raise Unsupported(f'{q}: the equations field `{text(joined)[:70]}` is not a join')
